@@ -91,6 +91,10 @@ pub enum G {
     Nested(B, B),
     Tree,
     Pratt(B, Vec<PrattOp>, String),
+    /// a parser of chumsky::text: (name, argument: radix or keyword); the derived grammar in the AST is the
+    /// specification's transcription of its construction and is not built here -- the real parser is
+    Text(String, String),
+    TPadded(B),
 }
 
 fn toks(j: &J) -> Result<Vec<char>, String> {
@@ -229,6 +233,15 @@ impl G {
             "withstate" => G::WithState(bx(&a[1])?),
             "nested" => G::Nested(bx(&a[1])?, bx(&a[2])?),
             "tree" => G::Tree,
+            "text" => {
+                let arg = match &a[2] {
+                    J::String(s) => s.clone(),
+                    J::Array(ts) => ts.iter().map(|t| tok_to_char(t.as_str().unwrap_or(""))).collect(),
+                    other => other.to_string(),
+                };
+                G::Text(a[1].as_str().unwrap_or("").to_string(), arg)
+            }
+            "tpadded" => G::TPadded(bx(&a[1])?),
             "pratt" => {
                 let ops = a[2]
                     .as_array()
